@@ -46,7 +46,7 @@ def exec_text(h, cmds):
 # ------------------------------------------------------------------------------------------------
 def pool_header(rng, ptype=None, src=None):
     ptype = ptype or rng.choice(["node", "array", "small"])
-    src = src or rng.choice(["grow", "grow", "fixed", "static"])
+    src = src or rng.choice(["grow", "grow", "fixed", "static", "virtual"])
     ns = rng.choice([1, 2, 3, 4, 5, 7, 8, 9, 12, 16, 17, 24, 32, 40, 48, 64, 100])
     h = {"fam": "pool", "type": ptype, "src": src, "ns": ns,
          "place": rng.choice(["lo", "hi"]), "member": 1 if rng.random() < 0.25 else 0}
@@ -54,6 +54,9 @@ def pool_header(rng, ptype=None, src=None):
         if ns > 64:
             h["ns"] = ns = 64
         h["bs"] = rng.choice([512, 1024, 2048, 4096])
+    elif src == "virtual":
+        h["bs"] = 4096                     # one page per block, 6 blocks reserved
+        h["ns"] = ns = rng.choice([64, 100, 200, 256, 500, 1000])   # few nodes per page so that blocks run out
     else:
         h["nodes"] = rng.choice([2, 3, 4, 5, 6, 8, 12, 20])
         h["extra"] = rng.choice([0, 0, 1, 7, 8, 15, 16, 33])
@@ -92,6 +95,9 @@ def pool_cmds(rng, h, n, arrays=None, tries=True, fail=False):
             cmds.append("fail %d" % rng.randint(1, 3))
         else:
             cmds.append("an %d %d" % (sz, al))
+        if rng.random() < 0.04:
+            cmds.append("drain %d" % ns)
+    cmds += ["nofail", "drain %d" % ns]
     return cmds
 
 
@@ -99,7 +105,17 @@ def coll_header(rng, ptype=None, bd=None, src=None):
     ptype = ptype or rng.choice(["node", "array", "small"])
     bd = bd or rng.choice(["identity", "log2"])
     src = src or rng.choice(["grow", "grow", "fixed"])
-    if bd == "identity":
+    if ptype == "small":
+        # small node lists need a chunk header (and fences) per reservation on top of the node: keep
+        # block size / number of buckets comfortably above that (the library's own constructor check
+        # does not account for it: known finding F25)
+        if bd == "identity":
+            maxns = rng.choice([8, 12, 16])
+            bs = rng.choice([4096, 6000, 8192])
+        else:
+            maxns = rng.choice([16, 32, 64])
+            bs = rng.choice([4096, 5000, 8192])
+    elif bd == "identity":
         maxns = rng.choice([8, 12, 16, 24, 32])
         bs = rng.choice([2048, 3000, 4096, 6000, 8192])
     else:
@@ -140,14 +156,18 @@ def coll_cmds(rng, h, n, arrays=None, tries=True, fail=False):
             cmds.append("fail %d" % rng.randint(1, 2))
         else:
             cmds.append("an %d %d" % (sz, al))
+        if rng.random() < 0.03:
+            cmds.append("drain %d" % rng.choice(fav))
+    cmds.append("nofail")
+    cmds += ["drain %d" % f for f in fav]
     return cmds
 
 
 def stack_header(rng, src=None):
-    src = src or rng.choice(["grow", "grow", "fixed", "static"])
+    src = src or rng.choice(["grow", "grow", "fixed", "static", "virtual"])
     h = {"fam": "stack", "src": src, "place": rng.choice(["lo", "hi"]),
          "member": 1 if rng.random() < 0.3 else 0}
-    h["bs"] = rng.choice([512, 1024, 2048]) if src == "static" else rng.choice([64, 100, 128, 200, 256, 500, 1024])
+    h["bs"] = rng.choice([512, 1024, 2048]) if src == "static" else 4096 if src == "virtual" else rng.choice([64, 100, 128, 200, 256, 500, 1024])
     return h
 
 
